@@ -90,6 +90,26 @@ class _Logged(list):
         self._it.timeline.append(("ext", rec[0], rec))
 
 
+def _cond_key(term):
+    """Canonical key of a boolean term and whether the term is the key's negation: x != y is not(x == y),
+    x <= y is not(x > y), x < y is y > x, x >= y is not(y > x)."""
+    at = term.single_atom() if hasattr(term, "single_atom") else None
+    if at is not None and isinstance(at, T.App) and len(at.args) == 2:
+        a, b = at.args
+        if at.op in ("cmp_Eq", "cmp_NotEq"):
+            a, b = sorted((a, b), key=repr)
+            return ("eq", a, b), at.op == "cmp_NotEq"
+        if at.op == "cmp_Gt":
+            return ("gt", a, b), False
+        if at.op == "cmp_LtE":
+            return ("gt", a, b), True
+        if at.op == "cmp_Lt":
+            return ("gt", b, a), False
+        if at.op == "cmp_GtE":
+            return ("gt", b, a), True
+    return ("t", term), False
+
+
 class Interp:
     MAX_DEPTH = 14
 
@@ -119,6 +139,7 @@ class Interp:
         self._last_comp_iter = None
         self.sticky = False  # one outcome per branch site per path (coarser partition, fewer paths)
         self.sticky_memo = {}
+        self.term_memo = {}
         self.stubs = {}  # qualname -> fn(interp, func, args, kwargs, node) -> V
         from . import ops
 
@@ -181,14 +202,27 @@ class Interp:
             skey = (self.site(node), desc or (ast.unparse(node) if node is not None else "?"))
             if skey in self.sticky_memo:
                 return self.sticky_memo[skey]
+        if isinstance(value, VNum) and value.kind != "bool" and value.term is not None:
+            value = VNum("bool", T.app("cmp_NotEq", value.term, T.ZERO))  # truthiness of a number
+        # a condition whose value is a term already decided on this path has the same outcome (terms are pure
+        # values); generic unknowns ('?') are not identities and are never memoised
+        tkey = None
+        if isinstance(value, VNum) and value.term is not None and not any("?" in s for s in value.term.syms()):
+            tkey, flip = _cond_key(value.term)
+            if tkey in self.term_memo:
+                out = self.term_memo[tkey] != flip
+                if skey is not None:
+                    self.sticky_memo[skey] = out
+                self.conds.append((self.site(node), desc or (ast.unparse(node) if node is not None else "?"), out, value))
+                return out
         k = len(self.taken)
         if k < len(self.decisions):
             out = self.decisions[k]
         else:
             out = True
         self.taken.append(out)
-        if isinstance(value, VNum) and value.kind != "bool" and value.term is not None:
-            value = VNum("bool", T.app("cmp_NotEq", value.term, T.ZERO))  # truthiness of a number
+        if tkey is not None:
+            self.term_memo[tkey] = out != flip
         if skey is not None:
             self.sticky_memo[skey] = out
         self.conds.append((self.site(node), desc or (ast.unparse(node) if node is not None else "?"), out, value))
